@@ -7,11 +7,11 @@ import "strings"
 func init() {
 	register(&PropDef{
 		ID: "C02", Level: "exploration", Quick: 12000, Thorough: 400000, QuickCap: 100,
-		Rule: "each run = one store (memory / file), a strictly increasing simulated wall clock, 1-25 requests: uploads by simple media, multipart/related and resumable protocol (chunkings, status queries bytes */N and */*, re-sent earlier ranges, re-sent ranges that overlap the received bytes and continue past them, duplicated requests, lost responses, finishing by bytes */N, gzip-encoded bodies, file store: server restart between chunks), declared MD5 good/bad/none, names with slashes, dots, spaces, unicode and percent characters, payloads empty / 1 byte / binary / 256 KiB+1; after every successful upload the object is downloaded through the JSON, /download and public URL forms and its metadata read; overwrites, deletes and neighbour checks via full-state comparison (listing + metadata + media of every object of every bucket); distinct = hash of (store, request shapes); non-trivial = at least 2 requests",
-		Real: []string{"gcsemu handlers (uploads, resumable state machine, media/metadata GET, delete, listing), multipart and range parsing, gzip/drain wrappers, mem store and file store on a real file system, net/http request parser and mux"},
-		Stub: []string{"HTTP connections (requests built from raw bytes, served through the real mux into a recorder)", "wall clock (simulator-owned, strictly increasing here)"},
+		Rule:   "each run = one store (memory / file), a strictly increasing simulated wall clock, 1-25 requests: uploads by simple media, multipart/related and resumable protocol (chunkings, status queries bytes */N and */*, re-sent earlier ranges, re-sent ranges that overlap the received bytes and continue past them, duplicated requests, lost responses, finishing by bytes */N, gzip-encoded bodies, file store: server restart between chunks), declared MD5 good/bad/none, names with slashes, dots, spaces, unicode and percent characters, payloads empty / 1 byte / binary / 256 KiB+1; after every successful upload the object is downloaded through the JSON, /download and public URL forms and its metadata read; overwrites, deletes and neighbour checks via full-state comparison (listing + metadata + media of every object of every bucket); distinct = hash of (store, request shapes); non-trivial = at least 2 requests",
+		Real:   []string{"gcsemu handlers (uploads, resumable state machine, media/metadata GET, delete, listing), multipart and range parsing, gzip/drain wrappers, mem store and file store on a real file system, net/http request parser and mux"},
+		Stub:   []string{"HTTP connections (requests built from raw bytes, served through the real mux into a recorder)", "wall clock (simulator-owned, strictly increasing here)"},
 		Assume: []string{"names the mux itself rewrites (empty, '.'/'..' segments, '//') are not sent; file-store worlds also exclude names that are a directory prefix of another name", "contentType is compared only when one was sent", "uploads go to existing buckets only"},
-		Run: runC02,
+		Run:    runC02,
 	})
 	expectedProbes["C02"] = []string{"c02.three_forms", "c02.bad_md5_rejected", "c02.overwrite", "c02.delete", "c02.resumable_multi_chunk", "c02.finished_by_status_query", "c02.resend_overlapping_range", "c02.folder_name_request", "c02.gzip_body", "c02.big_payload", "gcs.restart"}
 }
